@@ -1093,7 +1093,9 @@ impl ObjFiber {
             self.open_upvalues = {
                 let mut borrowed_upvalue = upvalue.borrow_mut();
                 borrowed_upvalue.close();
-                borrowed_upvalue.next
+                // A closed variable has left the list of open ones: drop its link, so that it does
+                // not keep the variables that were open below it (and their values) alive.
+                borrowed_upvalue.next.take()
             };
         }
     }
